@@ -3,8 +3,11 @@ from hypothesis import strategies as st
 
 
 def request_json(rid, src, dst, trx_type='T0', trx_mode=None, spacing=50e9, nb_channel=None, power=None,
-                 path_bandwidth=100e9, nm=None, include=None, bidir=False, tx_power=None):
-    """One legacy path-request. include = [(uid, 'LOOSE'|'STRICT'), ...]; nm = [(N, M), ...] with None allowed"""
+                 path_bandwidth=100e9, nm=None, include=None, bidir=False, tx_power=None, index_style=0):
+    """One legacy path-request. include = [(uid, 'LOOSE'|'STRICT'), ...]; nm = [(N, M), ...] with None allowed.
+    index_style: how the route objects are numbered and listed (the order of the route is the numeric order of `index`):
+    0 = 0,1,2.. listed in order; 1 = sparse numbering 2,6,10,14.. (crosses the one/two digit boundary); 2 = sparse and listed
+    in reverse; 3 = 0,1,2.. listed in reverse"""
     te = {'technology': 'flexi-grid', 'trx_type': trx_type, 'trx_mode': trx_mode,
           'effective-freq-slot': [{'N': n, 'M': m} for n, m in (nm or [(None, None)])],
           'spacing': spacing, 'max-nb-of-channel': nb_channel, 'output-power': power, 'path_bandwidth': path_bandwidth}
@@ -13,10 +16,13 @@ def request_json(rid, src, dst, trx_type='T0', trx_mode=None, spacing=50e9, nb_c
     req = {'request-id': str(rid), 'source': src, 'destination': dst, 'src-tp-id': src, 'dst-tp-id': dst,
            'bidirectional': bool(bidir), 'path-constraints': {'te-bandwidth': te}}
     if include:
-        req['explicit-route-objects'] = {'route-object-include-exclude': [
-            {'explicit-route-usage': 'route-include-ero', 'index': i,
+        objs = [
+            {'explicit-route-usage': 'route-include-ero', 'index': (2 + 4 * i) if index_style in (1, 2) else i,
              'num-unnum-hop': {'node-id': uid, 'link-tp-id': 'link-tp-id is not used', 'hop-type': hop}}
-            for i, (uid, hop) in enumerate(include)]}
+            for i, (uid, hop) in enumerate(include)]
+        if index_style in (2, 3):
+            objs.reverse()
+        req['explicit-route-objects'] = {'route-object-include-exclude': objs}
     return req
 
 
